@@ -450,6 +450,41 @@ def r6(ctx):
     ctx.floor("C14.R6", 4)
 
 
+def r7(ctx):
+    """"replies arrive in request order and reflect all earlier requests": a streamed reply (get_many, list_authors, list_replicas)
+    is produced by a task spawned into the actor's join set after the request was accepted. When the actor stops, those tasks
+    must be driven to their end (or their streams ended with an error item) before they are discarded: aborting them drops the
+    senders, and the client sees a stream that ends cleanly - an empty or truncated answer that looks complete."""
+    f = ctx.facts
+    top = f.body("actor::Actor::run_async")
+    b = f.bodies.get(top.path + "::{closure#0}") if top.rec.get("is_async") else top
+    b = b or top
+    ctx.touch(*f.scope(top.path, prefix="actor::Actor::"))
+
+    def sites(name):
+        out = []
+        for bi, t in b.calls():
+            hit = t["f"].get("name") == name and "JoinSet" in (t["f"].get("path") or "") + (t["f"].get("full") or "")
+            if not hit:
+                for p_ in mir.callee_paths(t):
+                    if p_ in f.bodies and p_.startswith("actor::") and any(t2["f"].get("name") == name and "JoinSet" in (t2["f"].get("path") or "") + (t2["f"].get("full") or "") for x in f.family(p_) for _, t2 in x.calls()):
+                        hit = True
+            if hit:
+                out.append(bi)
+        return out
+    aborts = sites("abort_all")
+    # the loop's own join_next (reaping finished tasks while running) does not count: only a drain that every abort_all is dominated
+    # by and that is not inside the main loop, i.e. is itself dominated by the loop's exit
+    # "after the loop" = a site from which the inbox is not read again
+    recvs = [bi for bi, t in b.calls() if t["f"].get("name") == "recv" and "async_channel::Receiver" in (t["f"].get("path") or "")]
+    joins = [j for j in sites("join_next") if not any(r_ in b.reach_from_edges(b.succ()[j]) for r_ in recvs)]
+    ok = (not aborts) or all(any(b.dominates(j, a) for j in joins) for a in aborts)
+    ctx.check(ok, "C14.R7", top.path, "accepted-reply-streams-finished-before-the-actor-stops",
+              "JoinSet::abort_all at %d site(s) of the actor's shutdown path, %d drain(s) of the join set (join_next after the loop) in front of them; spec: the tasks streaming replies to requests that were accepted "
+              "before the shutdown are completed (or their streams terminated with an error) before anything is aborted" % (len(aborts), len(joins)), top.sp)
+    ctx.floor("C14.R7", 1)
+
+
 def run(ctx):
     ctx.run_rule("C14.R1", r1)
     ctx.run_rule("C14.R2", r2)
@@ -457,3 +492,4 @@ def run(ctx):
     ctx.run_rule("C14.R4", r4)
     ctx.run_rule("C14.R5", r5)
     ctx.run_rule("C14.R6", r6)
+    ctx.run_rule("C14.R7", r7)
